@@ -284,7 +284,13 @@ pub fn gen_case(r: &mut Rng, corpus: &Corpus, max_len: usize) -> Case {
             kind = "declaration";
             let kw = *r.pick(&["charset", "encoding", "coding"]);
             let sep = *r.pick(&["=", ":", ": ", "= ", " ", "=\"", "='", ":=  "]);
-            let lab = r.pick(LABEL_POOL).trim().to_string();
+            // any label of the codec crate's table (1 in 3), a label that resolves to an encoding detection never probes
+            // (1 in 6), else the hand-picked pool
+            let lab = match r.below(6) {
+                0 | 1 => { let al = all_labels(); r.pick(&al).clone() }
+                2 => { let ul = unprobed_labels(); if ul.is_empty() { r.pick(LABEL_POOL).trim().to_string() } else { r.pick(&ul).clone() } }
+                _ => r.pick(LABEL_POOL).trim().to_string(),
+            };
             let decl = format!("<meta {}{}{}\"> ", kw, sep, lab);
             let t = r.pick(&corpus.texts);
             let t: String = t.chars().take(r.range(20, 1500)).collect();
@@ -520,4 +526,38 @@ pub fn legacy_text_in(rng: &mut Rng, corpus: &Corpus, target: usize, enc: &'stat
     }
     b.truncate(target);
     (b, enc)
+}
+
+/// every label of the codec crate's label table (as generated by the translator on this run); LABEL_POOL when unavailable
+pub fn all_labels() -> Vec<String> {
+    let mut v: Vec<String> = vec![];
+    if let Ok(txt) = std::fs::read_to_string("/verif/_build/tables.json") {
+        if let Ok(j) = serde_json::from_str::<serde_json::Value>(&txt) {
+            for e in j["LABELS"].as_array().cloned().unwrap_or_default() {
+                if let Some(l) = e.get(0).and_then(|x| x.as_str()) {
+                    v.push(l.to_string());
+                }
+            }
+        }
+    }
+    if v.is_empty() {
+        v = LABEL_POOL.iter().map(|x| x.trim().to_string()).collect();
+    }
+    v
+}
+
+/// labels the codec crate resolves but whose encoding detection never probes (not among IANA_SUPPORTED under its
+/// WHATWG name or its own name): a declaration may name them
+pub fn unprobed_labels() -> Vec<String> {
+    let sup = supported();
+    all_labels()
+        .into_iter()
+        .filter(|l| match encoding_from_whatwg_label(l) {
+            Some(c) => {
+                let n = c.whatwg_name().unwrap_or(c.name());
+                !sup.iter().any(|s| s == n) && !sup.iter().any(|s| s == c.name())
+            }
+            None => false,
+        })
+        .collect()
 }
